@@ -1754,8 +1754,14 @@ class Authenticated(BaseClientHandler):
         # We use the idling hack so EXPUNGE notifications are delivered
         # immediately to this client.
         #
-        expunge_cmd = IMAPClientCommand("A001 EXPUNGE")
-        expunge_cmd.command = IMAPCommand.EXPUNGE
+        # NOTE: The phony command is a MOVE, not an EXPUNGE: the mailbox lets
+        #       an EXPUNGE run alongside other commands when no message is
+        #       flagged `\\Deleted` (it would have nothing to do), but this
+        #       expunge removes messages regardless of that flag and must have
+        #       the mailbox to itself.
+        #
+        expunge_cmd = IMAPClientCommand("A001 MOVE")
+        expunge_cmd.command = IMAPCommand.MOVE
         try:
             idling = self.idling
             self.idling = True
